@@ -406,8 +406,18 @@ def g4_aggregation(ctx):
                         and isinstance(x.targets[0].value, ast.Name) and any(astx.u(r.value).startswith(f"({x.targets[0].value.id},") for r in astx.walk_own(f.node) if isinstance(r, ast.Return) and r.value is not None)]
             if per_bloc:
                 n += 1
-                ctx.violated(f, per_bloc[0], f"{f.short}: aggregate = fold of + over the per-bloc profiles; by_bloc returns (dict, aggregate)",
-                             "the per-bloc profiles are filed but never added up: the aggregate profile does not contain the generated ballots")
+                D = per_bloc[0].targets[0].value.id
+                reads = [x for x in astx.walk_own(f.node) if isinstance(x, ast.Call) and isinstance(x.func, ast.Attribute) and x.func.attr in ("values", "items") and astx.is_name(x.func.value, D)]
+                pmg = astx.parents(f.node)
+                # (a loop over the profiles that does nothing with them does not combine them)
+                reads = [x for x in reads if not (isinstance(pmg.get(x), ast.For) and pmg[x].iter is x and all(isinstance(b, ast.Pass) for b in pmg[x].body))]
+                if reads:
+                    # the per-bloc profiles are read, but not by the += loop this clause knows (sum(...), reduce(...)): cannot decide
+                    ctx.undecided(f, reads[0], f"{f.short}: aggregate = fold of + over the per-bloc profiles; by_bloc returns (dict, aggregate)",
+                                  f"`{astx.u(astx.stmt_of(reads[0], astx.parents(f.node)))[:70]}` combines the per-bloc profiles in a way this clause does not model")
+                else:
+                    ctx.violated(f, per_bloc[0], f"{f.short}: aggregate = fold of + over the per-bloc profiles; by_bloc returns (dict, aggregate)",
+                                 "the per-bloc profiles are filed but never read again: the aggregate profile does not contain the generated ballots")
             continue
         n += 1
         pm = astx.parents(f.node)
